@@ -13,6 +13,7 @@ C = dict(
         dict(module="PipeDrop_MC", cfg="PipeDrop_MC_2p_fixed.cfg", workers=8),
         dict(module="PipeDrop_MC", cfg="PipeDrop_MC_3_fixed.cfg", workers=8),
         dict(module="PipeDrop_MC", cfg="PipeDrop_MC_2q_fixed.cfg", workers=8),
+        dict(module="PipeDrop_MC", cfg="PipeDrop_MC_2pd_fixed.cfg", workers=4),
         dict(module="PipeDrop_MC", cfg="PipeDrop_MC_2_synth.cfg", workers=8),
         dict(module="PipeDrop_MC", cfg="PipeDrop_MC_2r_fixed.cfg", workers=8),
         dict(module="PipeDrop_MC", cfg="PipeDrop_MC_2pr_fixed.cfg", workers=8),
@@ -21,6 +22,8 @@ C = dict(
         dict(name="d2", module="PipeDrop_MC", cfg="PipeDrop_Plan2.cfg", cap={"quick": 70, "thorough": 3000}, params=P(CAT_D2), workers=8),
         dict(name="d2p", module="PipeDrop_MC", cfg="PipeDrop_Plan2p.cfg", cap={"quick": 50, "thorough": 350}, params=P(CAT_D2), workers=8),
         dict(name="d2q", module="PipeDrop_MC", cfg="PipeDrop_Plan2q.cfg", cap={"quick": 40, "thorough": 400}, params=P(CAT_D2), workers=8),
+        # a partition dropped upstream while CDC was down (announced as dropped, still present downstream, start from a checkpoint)
+        dict(name="d2pd", module="PipeDrop_MC", cfg="PipeDrop_Plan2pd.cfg", cap={"quick": 50, "thorough": 350}, params=P(CAT_D2, seek_ts=7), workers=8),
         dict(name="d2n", module="PipeDrop_MC", cfg="PipeDrop_Plan2n.cfg", cap={"quick": 60, "thorough": 644}, params=P(CAT_D2), workers=8),
         dict(name="d3", module="PipeDrop_MC", cfg="PipeDrop_Plan3.cfg", cap={"quick": 40, "thorough": 3000}, params=P(CAT_D3), workers=8),
         # pause/resume on the same manager (stop, start again, partitions added again) and a second start after the drop was delivered
@@ -57,7 +60,7 @@ def run(tier, replay=None):
     if not replay:
         from lib import vlib
         # negative controls: a stop that keeps stale partition entries, a delivered drop that is not remembered
-        for cfg, inv in (("PipeDrop_MC_2r_stale.cfg", "Delivered"), ("PipeDrop_MC_2r_forgot.cfg", "C04")):
+        for cfg, inv in (("PipeDrop_MC_2r_stale.cfg", "Delivered"), ("PipeDrop_MC_2r_forgot.cfg", "C04"), ("PipeDrop_MC_2pd_skipped.cfg", "Delivered")):
             r = vlib.run_tlc("PipeDrop_MC", cfg, workers=4, timeout=300)
             if inv not in r.violated:
                 raise vlib.Inconclusive("%s no longer violates %s: the restart part of the model is vacuous" % (cfg, inv))
